@@ -205,7 +205,7 @@ func (r *Run) writeReplay(v Violation) string {
 	_ = os.MkdirAll(dir, 0o755)
 	h := sha1.Sum([]byte(v.Key))
 	path := filepath.Join(dir, fmt.Sprintf("%s-%x.json", r.ID, h[:5]))
-	b, _ := json.MarshalIndent(map[string]any{"property": r.ID, "key": v.Key, "msg": v.Msg, "replay": v.Replay, "tier": r.Tier}, "", " ")
+	b, _ := json.MarshalIndent(map[string]any{"property": r.ID, "key": v.Key, "msg": v.Msg, "replay": v.Replay, "tier": r.Tier, "harness": os.Getenv("VERIF_HARNESS")}, "", " ")
 	_ = os.WriteFile(path, b, 0o644)
 	return path
 }
